@@ -517,6 +517,8 @@ func cmdCheck(args []string) {
 	trusted := map[string]bool{}
 	var unsupported, havocs, noVariant []string
 	inlined := map[string]bool{}
+	opaque := map[string]bool{}
+	nosafety := map[string]bool{}
 	for _, x := range execs {
 		for k := range x.trusted {
 			trusted[k] = true
@@ -530,7 +532,19 @@ func cmdCheck(args []string) {
 		for _, h := range x.havocAll {
 			havocs = append(havocs, x.name+": "+h)
 		}
+		for _, oc := range x.opaqueCalls {
+			opaque[x.name+" -> "+oc] = true
+		}
+		if x.skipSafety {
+			nosafety[x.name] = true
+		}
 		noVariant = append(noVariant, x.noTerm...)
+	}
+	for k := range opaque {
+		trusted["callee over-approximated by its static write set and arbitrary results (not inlined, no contract): "+k] = true
+	}
+	for k := range nosafety {
+		trusted["panic-freedom of "+k+" is not part of its contract (directive nosafety): covered by the zero-annotation sweep of C08/C17 only as far as its baseline goes"] = true
 	}
 	var trustedList []string
 	for k := range trusted {
